@@ -296,7 +296,7 @@ def rasteriser(ctx):
                         ps, pe = P.loop_var_end(pvar[0])
                         ts_, te = P.loop_var_end(tvar[0])
                         nm = 'width' if axis == 0 else 'height'
-                        ok = q.const_val(ps) == 0 and q.const_val(ts_) == 0 and P.canon(pe) == dims[0] and \
+                        ok = P.within_zero_to(pvar[0], lambda t_: t_ == dims[0]) and q.const_val(ts_) == 0 and \
                             P.canon(te)[0] == 'call' and P.canon(te)[1] == TM + 'TilemapData::' + nm and is_param(P.canon(te)[2][0], td)
                         vars_[axis] = (tvar[0], pvar[0], dims[0])
                 ctx.inst('Q5', 'rasteriser#target-' + fld, ok, 'target %s = %s; must be cel.%s + t%s * tile %s + p%s with t%s in 0..stored %s, p%s in 0..tile %s'
